@@ -11,7 +11,7 @@ from typing import (
 )
 
 from ..concurrency import run_in_threadpool
-from ..datastructures import Headers
+from ..datastructures import Headers, RawCookie
 from ..typing import ASGIApp, Scope, Receive, Send, Message
 from .requests import Request
 from .responses import Response, StreamingResponse
@@ -81,6 +81,7 @@ class NextResponse(StreamingResponse):
         """
         status_code = 200
         headers = Headers()
+        set_cookies: list = []
         body = CachedStream()
 
         async def send(message: Message) -> None:
@@ -88,11 +89,14 @@ class NextResponse(StreamingResponse):
             nonlocal headers
             if message["type"] == "http.response.start":
                 status_code = message["status"]
+                raw_headers = [
+                    (k.decode("latin-1"), v.decode("latin-1"))
+                    for k, v in message.get("headers", [])
+                ]
+                # Set-Cookie lines cannot be folded into one comma-separated value
+                set_cookies[:] = [v for k, v in raw_headers if k.lower() == "set-cookie"]
                 headers = Headers(
-                    [
-                        (k.decode("latin-1"), v.decode("latin-1"))
-                        for k, v in message.get("headers", [])
-                    ]
+                    (k, v) for k, v in raw_headers if k.lower() != "set-cookie"
                 )
             elif message["type"] == "http.response.body":
                 await body.push(message.get("body", b""))
@@ -113,7 +117,9 @@ class NextResponse(StreamingResponse):
                     await body.push_eof()
 
         await app(request, request._receive, send)
-        return NextResponse(body, status_code, headers)
+        response = NextResponse(body, status_code, headers)
+        response.cookies.extend(RawCookie(line) for line in set_cookies)
+        return response
 
 
 def middleware(
